@@ -8,6 +8,7 @@ import os, re, subprocess, sys, tempfile, shutil, json
 from concurrent.futures import ThreadPoolExecutor
 
 path, lo, hi, out = sys.argv[1], int(sys.argv[2]), int(sys.argv[3]), sys.argv[4]
+hi = min(hi, len(open(os.path.join("/repo", path)).read().split("\n")))
 checks = sys.argv[5:]
 src = open(os.path.join('/repo', path)).read().split('\n')
 os.makedirs(out, exist_ok=True)
